@@ -213,6 +213,21 @@ register("C14",
          "TLA+ pipeline + SqRA models checked by TLC; TLC trace validation of the end-to-end pipeline re-using the model's actions",
          "DESIGN.md §4 C14, §5")
 
+register("C10",
+         "Rigid.tla models the pseudotrajectory as a state machine over the one mutable moving molecule (per grid row: reset to "
+         "the reference geometry, rotate about the centre of mass by the integer rotation matrix of the scalar-last "
+         "quaternion, translate, emit) in pure integer arithmetic and TLC checks that every emitted frame is R(q_k) ref + p_k, "
+         "one frame per row, all intramolecular distances preserved and the spec's own matrices orthogonal; frame-to-frame "
+         "accumulation, a transposed matrix and the scalar-first convention are negative configs. TLC then acts as "
+         "evaluator for non-grid arrays of rational unit quaternions (all integer 4-vectors of norm <= 9, random signs) and "
+         "integer positions; five molecules (single atom, linear, planar, two non-planar) are written to files, read through "
+         "the package's reader, run through the real Pseudotrajectory (universe and generator) and every atom of every "
+         "frame, molecule 1, frame count, atom order and names are compared (1e-4 A).",
+         "Rotations restricted to rational unit quaternions (dense in SO(3)); float32 coordinates compared at 1e-4 A; molecules "
+         "with one element and centred coordinates.",
+         "TLA+ integer model of the frame loop checked by TLC + TLC evaluator (spec->code) compared atom by atom",
+         "DESIGN.md §4 C10")
+
 ALL = [f"C{i:02d}" for i in range(1, 21)]
 
 
